@@ -279,6 +279,12 @@ Proof.
 Qed.
 Print Assumptions msg_ids_with_batch_queues.
 
+Theorem id_counter_is_moved_by_put_only :
+  Gen.C05.id_generator_used_by_put_only = true /\ Gen.C05.id_generator_uses_in_queue = 1 /\
+  Gen.C05.id_generator_store_writes = 1.
+Proof. exact counter_written_by_put_only. Qed.
+Print Assumptions id_counter_is_moved_by_put_only.
+
 Theorem batch_queue_model_is_of_current_source :
   Gen.C05.batch_id_counter_key_expr = "consensusBatchQueueIDCounterKey"%string /\
   Gen.C05.id_counter_keys_distinct = true /\ Gen.C05.batch_put_stages_only = true /\
